@@ -2,7 +2,7 @@
    reference) makes EVERY member below it skippable, at any nesting depth of
    containers, whatever the member's own minOccurs (Typed.optional walks the
    whole ancestry of the content).  Lemmas. *)
-From SV Require Import Lib.Base Fam.Schema C01.Marshal.
+From SV Require Import Lib.Base Fam.Schema C01.Marshal C01.Guard.
 
 Section particle_ind2.
   Variable P : particle -> Prop.
@@ -80,4 +80,38 @@ Lemma required_member_not_omitted_l : forall S xstq d,
   exists n, marshal_elem S xstq d false VNone = MOk [n].
 Proof.
   intros S xstq d H. simpl. rewrite H. simpl. eexists. reflexivity.
+Qed.
+
+(* ---- the top-level defect and the theorem guard ---- *)
+
+(* the guard excludes every argument of the defect class ... *)
+Lemma toplevel_quirk_outside_guard_l : forall S c v,
+  toplevel_quirk c v = true -> param_conforming S c v = false.
+Proof.
+  intros S [d anc ch|a] v H; [|discriminate]. cbn in H.
+  apply andb_true_iff in H as [H Hn]. apply andb_true_iff in H as [H Hch].
+  apply andb_true_iff in H as [Ha Ho].
+  destruct v; try discriminate. subst anc.
+  apply negb_true_iff in Ho. apply negb_true_iff in Hch. subst ch.
+  cbn. rewrite Ho. reflexivity.
+Qed.
+
+(* ... and nothing else about a None argument: a None that the guard rejects is
+   of the defect class (so the guard is not wider than the defect) *)
+Lemma none_outside_guard_is_quirk_l : forall S d anc ch,
+  param_conforming S (FE d anc ch) VNone = false -> toplevel_quirk (FE d anc ch) VNone = true.
+Proof.
+  intros S d anc ch H. cbn in H. cbn.
+  destruct ch, (e_opt d), anc; cbn in *; try discriminate; reflexivity.
+Qed.
+
+(* on such an argument reference and code really differ *)
+Lemma toplevel_quirk_differs_l : forall S xstq d,
+  e_opt d = false ->
+  ref_param S xstq (FE d true false) VNone = Some [] /\
+  exists n, marshal_param S xstq (FE d true false) VNone = MOk [n].
+Proof.
+  intros S xstq d Ho. split.
+  - cbn. rewrite Ho. reflexivity.
+  - cbn. rewrite Ho. cbn. eexists. reflexivity.
 Qed.
